@@ -63,7 +63,7 @@ def _roots_and_patterns(db, chk, m):
             return Frame(TR)
         if name == "t.symbol_table.get_sym_id_map":
             return T.P("SYMIDX")
-        if name == "cg.get_stack_of_node":
+        if name.endswith(".get_stack_of_node"):
             stack_calls.append(([to_term(p) for p in pos], {k: to_term(v) for k, v in kw.items()}))
             return Frame(STK)
         if name == "cls._generate_frequent_pattern_results":
@@ -79,7 +79,7 @@ def _roots_and_patterns(db, chk, m):
         chk.ob("C16.R1-root-selection", "one normal path reaching the result generation", None, where, found=len(runs))
         return
     r = runs[0]
-    rn = r.env.get("root_nodes")
+    rn = next((v for v in r.env.values() if isinstance(v, Frame) and v.base == TR and T.find(v.rows, lambda s: s[0] == "agg" and s[1] == "min")), None)
     NAME, DEPTH = T.col(TR, "name"), T.col(TR, "depth")
     if not isinstance(rn, Frame):
         chk.ob("C16.R1-root-selection", "root_nodes is a selection of the trace frame", None, where)
@@ -102,7 +102,7 @@ def _roots_and_patterns(db, chk, m):
     ok_call = len(stack_calls) == 1 and stack_calls[0][0] == [("at", ("row",), T.col(TR, "index"))] and stack_calls[0][1] == {"skip_ancestors": T.C(True)}
     chk.ob("C16.R2-pattern", "each root contributes the call stack beneath ITS id, without ancestors", ok_call, where, found=[[T.show(x)[:60] for x in a] + [str(k) for k in kw.items()] for a, kw in stack_calls],
            accepted="cg.get_stack_of_node(index, skip_ancestors=True)")
-    ck = r.env.get("cuda_kernels")
+    ck = next((v for v in r.env.values() if isinstance(v, Frame) and v.base == STK and v.order is not None), None)
     okk = isinstance(ck, Frame) and ck.base == STK and isinstance(ck.order, tuple) and ck.order[0] == "sort" and ck.order[1] == (T.col(STK, "ts"),) and ck.order[2] is True
     tt = None
     if isinstance(ck, Frame):
@@ -112,19 +112,16 @@ def _roots_and_patterns(db, chk, m):
             tt = None
     chk.ob("C16.R2-pattern", "kernels of an instance = the device rows of its stack (truth table over stream), in start-time order", okk and tt == {-1: False, 1: True, 7: True}, where,
            found={"table": tt, "order": T.show_order(ck.order) if isinstance(ck, Frame) else None}, accepted="stack.loc[stream != -1] sorted by ts ascending")
-    pat = to_term(r.env.get("pattern"))
+    cnt_ev = [e for e in r.events if e["kind"] == "dict-store" and e["func"].endswith("get_frequent_cuda_kernel_sequences") and e["value"] == T.C(1)]
+    pat = cnt_ev[0]["key"] if len(cnt_ev) == 1 else T.opaque("pattern key not found")
     root_name = ("at", ("row",), NAME)
     exp_pat = ("tuple", ("binop", "Add", ("list", (root_name,)), ("tolist", T.col(STK, "name"), ck.ctx() if isinstance(ck, Frame) else None)))
     okp = pat[0] in ("tuple", "call") and root_name in [s for s in T.subterms(pat)] and T.find(pat, lambda s: s[0] == "tolist" and s[1] == T.col(STK, "name") and isinstance(ck, Frame) and s[2] == ck.ctx()) != []
     chk.ob("C16.R2-pattern", "pattern = (the root's name,) followed by the names of those kernels", okp, where, found=T.show(pat)[:200], accepted="tuple([name] + cuda_kernels['name'].tolist())")
-    stores = [e for e in r.events if e["kind"] == "dict-store" and e["func"].endswith("get_frequent_cuda_kernel_sequences")]
-    by_t = {}
-    for e in stores:
-        by_t.setdefault(e["target"], []).append(e)
-    cnt = by_t.get("pattern_counts", [])
+    cnt = cnt_ev
     okcnt = len(cnt) == 1 and cnt[0]["key"] == pat and cnt[0]["value"] == T.C(1)
     chk.ob("C16.R2-pattern", "each instance adds 1 to its pattern's count", okcnt, where, found=[(T.show(e["value"])[:40]) for e in cnt], accepted="pattern_counts[pattern] += 1")
-    dur = [e for e in r.events if e["kind"] == "list-store" and e["func"].endswith("get_frequent_cuda_kernel_sequences") and e["target"] == "pattern_durations[pattern]"]
+    dur = [e for e in r.events if e["kind"] == "list-store" and e["func"].endswith("get_frequent_cuda_kernel_sequences")]
     vals = {T.show(e["key"]): e["value"] for e in dur}
     okd = vals.get("0") == ("at", ("row",), T.col(TR, "kernel_dur_sum")) and vals.get("1") == ("at", ("row",), T.col(TR, "dur")) and len(dur) == 2
     chk.ob("C16.R2-pattern", "durations: [0] += the root's kernel_dur_sum (GPU), [1] += the root's dur (CPU)", okd, where, found={k: T.show(v)[:60] for k, v in vals.items()},
@@ -148,9 +145,11 @@ def _results(db, chk, m):
         if isinstance(by, list) and by[:1] == ["count"] and (asc is False or (isinstance(asc, list) and asc[:1] == [False])):
             ok = True
     chk.ob("C16.R2-result-order", "result rows are ordered by count, descending", ok, m.loc(f), found=det, accepted="sort_values(by=['count', ...], ascending=[False, ...])")
-    src = ast.unparse(f).replace(" ", "")
-    okc = "patterns_result['count'].append(count)" in src and "patterns_result['GPUkernelduration(us)'].append(pattern_durations[pattern][0])" in src and \
-        "patterns_result['CPUopduration(us)'].append(pattern_durations[pattern][1])" in src and "forpattern,countinpattern_counts.items()" in src
+    okc = False
+    for lp in [n for n in ast.walk(f) if isinstance(n, ast.For) and H.match("pattern_counts.items()", n.iter) is not None and isinstance(n.target, ast.Tuple) and len(n.target.elts) == 2]:
+        pv, cv = (H.name_id(e) for e in lp.target.elts)
+        okc = bool(H.find_match(f"$r['count'].append({cv})", lp)) and bool(H.find_match(f"$r['GPU kernel duration (us)'].append(pattern_durations[{pv}][0])", lp)) and \
+            bool(H.find_match(f"$r['CPU op duration (us)'].append(pattern_durations[{pv}][1])", lp))
     chk.ob("C16.R2-result-order", "reported count / GPU / CPU durations are the accumulated values of the pattern (index 0 = GPU, 1 = CPU)", okc, m.loc(f), found=okc, accepted="count, pattern_durations[pattern][0] -> GPU, [1] -> CPU")
 
 
@@ -187,6 +186,12 @@ def _descendants(db, chk):
     runs2 = [r for r in I.explore(f"{CS}:CallStackGraph.get_descendants", lambda I: dict({"self": Obj("self", cls=(cs, "CallStackGraph"), attrs={"nodes": nodes2}), "idx": ROOT}, **extra)) if r.raised is None]
     got2 = set(runs2[0].ret) if len(runs2) == 1 and isinstance(runs2[0].ret, (list, set)) else None
     chk.ob(rule, "host descendants are retained too", got2 is not None and {ROOT, KID} <= got2, cs.loc(gd), found=[T.show(x) for x in got2] if got2 else None, accepted=["$ROOT", "$KID"])
-    sel = ast.unparse(gs).replace(" ", "")
-    chk.ob(rule, "the stack frame returned = rows of the full frame at the non-negative descendant ids (skip_ancestors), sorted by ts", "valid_indices=[iforiinset(descendants)ifi>=0]" in sel and
-           "call_stack.full_df.loc[valid_indices].copy().sort_values('ts')" in sel, cg.loc(gs), found="...", accepted="full_df.loc[[i for i in set(descendants) if i >= 0]].copy().sort_values('ts')")
+    vi = H.find_match("$v = [$i for $i in set($d) if $i >= 0]", gs)
+    okv = False
+    if len(vi) == 1:
+        vname = vi[0][1]["__mv_v"]
+        okv = bool(H.find_match(f"$c.full_df.loc[{vname}].copy().sort_values('ts')", gs)) or bool(H.find_match(f"$c.full_df.loc[{vname}].sort_values('ts')", gs))
+        dsrc = [v for t, v, s_ in H.assignments(gs) if H.name_id(t) == vi[0][1]["__mv_d"]]
+        okv = okv and any(isinstance(v, ast.Call) and isinstance(v.func, ast.Attribute) and v.func.attr == "get_descendants" for v in dsrc)
+    chk.ob(rule, "the stack frame returned = rows of the full frame at the non-negative descendant ids (skip_ancestors), sorted by ts", okv if vi else None, cg.loc(gs), found=[ast.unparse(n)[:100] for n, _ in vi],
+           accepted="full_df.loc[[i for i in set(descendants) if i >= 0]].copy().sort_values('ts')")
